@@ -175,8 +175,10 @@ def run_shard(shard):
         lo, hi = exons[0][0], exons[-1][1]
         ln = sum(e - s for s, e in exons)
         wins = [None, "chrom"] + [(a, b) for a in range(0, lo + 1) for b in range(hi, N + 1)] + [(a, b, "-") for a in (0, lo) for b in (hi, N)]
-        for strand in "+-":
+        for strand in "+-.":
             placements = [None] + [(c0, c1) for c0 in range(ln) for c1 in range(c0 + 1, ln + 1)]
+            if strand == ".":
+                placements = [None]  # an undirected interval cannot carry a CDS; features and non-coding transcripts can be undirected
             for win in wins:
                 for chrom_mode in (True, False):
                     for mi, menu in enumerate(MENUS):
